@@ -234,9 +234,24 @@ def run(chk):
         if len(ms) != 1:
             return False, "filter not consulted exactly once", [], cb.span
         rr = common.roots(cb.origin(ms[0].args[1]))
-        caps = {v for k, v in rr if k == "capture"}
-        if "span_ctxt" not in caps:
-            return False, "the span filter is not shown the span's ids (captures used: %s)" % sorted(caps), [], ms[0].loc
+        # one of the values shown to the filter is (a capture of) the derived child context - by provenance, not by variable name
+        def shows_child(o, d=0):
+            if d > 14:
+                return False
+            if o[0] == "capture":
+                src, sb = common.capture_source(P, cb, o)
+                return any(k == "callsite" and v == nc[0].bb for k, v in common.roots(src)) and sb.key == b.key
+            if o[0] == "call":
+                return any(shows_child(cb.origin(a), d + 1) for a in o[1].args)
+            if o[0] in ("field", "downcast", "index", "cast"):
+                return shows_child(o[1], d + 1)
+            if o[0] == "agg":
+                return any(shows_child(x, d + 1) for x in o[2])
+            if o[0] == "phi":
+                return any(shows_child(x, d + 1) for x in o[1])
+            return False
+        if not shows_child(cb.origin(ms[0].args[1])):
+            return False, "the span filter is not shown the span's ids (the derived child context)", [], ms[0].loc
         if ("param", 2) not in rr:
             return False, "the span filter is not shown the current ambient props", [], ms[0].loc
         # the frame comes from push_ctxt on the new guard
